@@ -27,6 +27,9 @@ type stateNil struct {
 	getters map[*ssa.Function]snField
 	// concrete named type -> fields nil by construction
 	nilByType map[*types.Named]map[snField]string
+	// fields of data-model structs that are initialised from a getter that is nil by construction
+	// (the device part of a remote entity's address): "Type.field" -> why
+	derived map[string]string
 }
 
 type snField struct {
@@ -176,7 +179,85 @@ func newStateNil(p *Prog) *stateNil {
 			}
 		}
 	}
+	// 3. derived fields: a constructor stores the result of such a getter into a field of a data-model struct
+	sn.derived = map[string]string{}
+	for _, fn := range p.RepoFns("spine") {
+		for _, b := range fn.Blocks {
+			for _, ins := range b.Instrs {
+				st, ok := ins.(*ssa.Store)
+				if !ok {
+					continue
+				}
+				fa, ok := st.Addr.(*ssa.FieldAddr)
+				if !ok || !isModelStruct(fa.X.Type()) {
+					continue
+				}
+				if _, isPtr := st.Val.Type().Underlying().(*types.Pointer); !isPtr {
+					continue
+				}
+				if why, nilable := sn.nilableOrigin(st.Val, 0); nilable {
+					sn.derived[wFieldKey(fa.X.Type(), fa.Field)] = "initialised in " + FnName(fn) + " from " + why
+				}
+			}
+		}
+	}
 	return sn
+}
+
+// nilableOrigin: the value is the result of a getter that is nil by construction, directly or as a
+// parameter some caller fills with such a result (constructors taking the device address).
+func (sn *stateNil) nilableOrigin(v ssa.Value, depth int) (string, bool) {
+	switch x := v.(type) {
+	case *ssa.Call:
+		return sn.Nilable(x)
+	case *ssa.Parameter:
+		if depth > 3 || x.Parent() == nil {
+			return "", false
+		}
+		idx := -1
+		for i, q := range x.Parent().Params {
+			if q == x {
+				idx = i
+			}
+		}
+		for _, site := range sn.p.Callers(x.Parent()) {
+			args := argsWithRecv(site.Common())
+			if idx >= 0 && idx < len(args) {
+				if why, ok := sn.nilableOrigin(args[idx], depth+1); ok {
+					return why, true
+				}
+			}
+		}
+	}
+	return "", false
+}
+
+// Pure: every function the call may reach is a pure pointer getter.
+func (sn *stateNil) Pure(c *ssa.Call) bool {
+	callees := sn.p.Callees(c)
+	if len(callees) == 0 {
+		return false
+	}
+	for _, f := range callees {
+		if _, ok := sn.getterOf(f); !ok {
+			return false
+		}
+	}
+	return true
+}
+
+// DerivedNil: the load reads a data-model field that is initialised from a getter nil by construction.
+func (sn *stateNil) DerivedNil(v ssa.Value) (string, bool) {
+	u, ok := v.(*ssa.UnOp)
+	if !ok || u.Op != token.MUL {
+		return "", false
+	}
+	fa, ok := u.X.(*ssa.FieldAddr)
+	if !ok || !isModelStruct(fa.X.Type()) {
+		return "", false
+	}
+	why, ok := sn.derived[wFieldKey(fa.X.Type(), fa.Field)]
+	return why, ok
 }
 
 // getterOf resolves a method function (possibly a promotion wrapper) to a pure getter.
